@@ -2,9 +2,11 @@
 mod c06;
 mod c08;
 mod c09;
+mod codec;
 mod engine;
 mod findings;
 mod hist;
+mod jsonmc;
 mod model;
 mod observe;
 mod pairs;
@@ -86,6 +88,9 @@ fn meta(prop: &str) -> Meta {
     "C14" => Meta { level: "model_checking", rule: "states = pool trees + their single-edit neighbours; evaluation = (pair, left observer prefix, right observer prefix); non-trivial = at least two observer calls before comparing", assumptions: &["bounded pool, prefixes of <= 2 observer calls (twins) / <= 1 (neighbours)", "observer answers compared as text, bytes, size and per-position attribution", "trees with a CachedSource beneath a ReplaceSource are excluded (history-dependent chunking, DESIGN section 6)"], workers: 16 },
     "C20" => Meta { level: "model_checking", rule: "states = pool trees + edited trees; evaluation = pair (base, single edit) or (base, independent tree) or (tree, observer prefix); non-trivial = the pair differs in source(), buffer() or map()", assumptions: &["bounded pool; every single edit of the listed kinds at every node", "64-bit collisions are counted as violations (none expected at this scale)", "SourceMapSource name and debugId edits are excluded (statement / reading 6.3)"], workers: 16 },
     "C16" => Meta { level: "model_checking", rule: "states = distinct rope piece structures reached by BFS; evaluations = states (all unary observers, every slice range) + ordered pairs (binary observers); non-trivial = multi-piece rope of >= 2 bytes", assumptions: &["bounded piece alphabet and program depth (coverage.bounds)", "reference model: the flat String; lines() = split after every line break plus a final empty line when the text is empty or ends in a line break", "Hash of Rope is not part of the statement and is not compared"], workers: 16 },
+    "C12" => Meta { level: "model_checking", rule: "states = mapping sequences / delta pairs / grammar strings enumerated; non-trivial = sequence of >= 2 segments with a mapped one, or string decoding to >= 2 segments", assumptions: &["bounded: <= 2 segments over the full boundary alphabet, 3-4 over a reduced one; generated lines stay small (one ';' per line)", "reference codec mc/src/refcodec.rs written from the source-map v3 description", "values < 2^31 (u32 fields of Mapping)"], workers: 16 },
+    "C15" => Meta { level: "model_checking", rule: "states = SourceMap values and JSON documents enumerated; non-trivial = value with >= 2 table entries / any document", assumptions: &["string alphabet of 12 strings covering quotes, backslash, control characters, U+2028/9, astral", "independent parser: serde_json"], workers: 16 },
+    "C17" => Meta { level: "model_checking", rule: "states = inputs enumerated (decoder strings, byte strings, edited documents, wild source trees), each run in the overflow-checked and in the release profile; non-trivial = input that parses / decodes to >= 2 segments / composite tree", assumptions: &["bounded lengths (coverage.bounds)", "hang detection: per-worker wall limit", "dependencies (simd-json) are part of the subject"], workers: 16 },
     "C11" => Meta { level: "model_checking", rule: "one case per distinct term; non-trivial = some map() has >= 2 segments", assumptions: tree_assume, workers: 16 },
     _ => panic!("unknown property {prop}"),
   }
@@ -99,6 +104,13 @@ fn run_worker(prop: &str, tier: &str, k: usize, n: usize, ctx: &mut Ctx) {
     "C08" => c08::worker(tier, k, n, ctx),
     "C09" => c09::worker(tier, k, n, ctx),
     "C05" => hist::c05_worker(tier, k, n, ctx),
+    "C12" => codec::c12_worker(tier, k, n, ctx),
+    "C15" => jsonmc::c15_worker(tier, k, n, ctx),
+    "C17" => {
+      codec::c17_decode_worker(tier, k, n, ctx);
+      jsonmc::c17_parser_worker(tier, k, n, ctx);
+      props::c17_tree_worker(tier, k, n, ctx);
+    }
     "C16" => rope_mc::worker(tier, k, n, ctx),
     "C14" => pairs::c14_worker(tier, k, n, ctx),
     "C20" => pairs::c20_worker(tier, k, n, ctx),
@@ -115,6 +127,14 @@ fn bounds(prop: &str, tier: &str) -> Value {
     "C08" => c08::bounds(tier),
     "C09" => c09::bounds(tier),
     "C05" => hist::c05_bounds(tier),
+    "C12" => codec::c12_bounds(tier),
+    "C15" => jsonmc::c15_bounds(tier),
+    "C17" => json!({
+      "profiles": ["checked (opt-level 2, overflow-checks, debug-assertions, std ub_checks)", "release"],
+      "decoder": format!("all strings of length <= {} over {{A,C,D,g,/,9,',',';','!'}}; continuation runs of length 1..=40 in each of the 5 field positions x 4 continuation digits x 7 terminators; huge deltas", if tier == "thorough" { 8 } else { 6 }),
+      "parsers": format!("from_slice/from_reader/from_json on all byte strings of length <= {}; complete single-edit neighbourhood (every byte -> every value, deletion, truncation, adjacent swap, 7 insertions) of 12 valid documents; nesting depth up to 5000", if tier == "thorough" { 3 } else { 2 }),
+      "trees": "wild scope (multi-byte text, invalid UTF-8, maps outside text/tables) through all Source methods and 4 stream modes; SourceMapSource with inner map: all <=2-segment outer x inner lists over wild kinds x 8 option sets, also beneath Cached+Replace and inside Concat",
+    }),
     "C16" => rope_mc::bounds(tier),
     "C14" => pairs::c14_bounds(tier),
     "C20" => pairs::c20_bounds(tier),
@@ -133,7 +153,27 @@ fn main() {
       let tier = args.get(3).map(|s| s.as_str()).unwrap_or("quick");
       let started = Instant::now();
       let m = meta(prop);
-      let (mut total, errors) = engine::run_workers(prop, tier, m.workers, &[]);
+      let (mut total, mut errors) = engine::run_workers(prop, tier, m.workers, &[]);
+      if prop == "C17" {
+        // second pass in the release profile (wrapping arithmetic, no ub_checks)
+        let exe = std::env::current_exe().unwrap();
+        let rel = std::path::PathBuf::from(exe.to_string_lossy().replace("/checked/", "/release/"));
+        if rel == exe || !rel.exists() {
+          errors.push(format!("release binary not found at {}", rel.display()));
+        } else {
+          let (t2, e2) = engine::run_workers_with(prop, tier, m.workers, &[], rel);
+          let released = t2.evaluations;
+          for mut v in t2.violations.clone() {
+            v.clause = format!("release:{}", v.clause);
+            total.violations.push(v);
+          }
+          let mut t2 = t2;
+          t2.violations.clear();
+          total.merge(t2);
+          total.add("evaluations_in_release_profile", released);
+          errors.extend(e2.into_iter().map(|e| format!("release: {e}")));
+        }
+      }
       if prop == "C20" {
         let digests: Vec<&String> = total.notes.iter().filter(|n| n.starts_with("pool_hash_digest=")).collect();
         if digests.len() != 1 {
@@ -185,6 +225,28 @@ fn main() {
 
 fn replay(prop: &str, case: &Value, ctx: &mut Ctx) {
   match prop {
+    "C12" => {
+      if let Ok(x) = serde_json::from_value::<Vec<refcodec::Seg>>(case["mappings"].clone()) {
+        codec::check_sequence(ctx, &x);
+      } else if let Some(s) = case["string"].as_str() {
+        if let Ok(d) = codec::crate_decode(s) {
+          println!("crate decodes {s:?} to {d:?}; reference: {:?}", refcodec::decode(s));
+        }
+      }
+    }
+    "C17" => {
+      if let Some(s) = case["string"].as_str() {
+        if let Err(e) = codec::crate_decode(s) {
+          ctx.violation("decode_mappings_panic", String::new(), None, || case.clone(), 0, e);
+        }
+      } else if let Ok(t) = serde_json::from_value::<term::Term>(case.clone()) {
+        tree_checks::all_methods_return(ctx, &t);
+      } else if let Ok(b) = serde_json::from_value::<Vec<u8>>(case["bytes"].clone()) {
+        if let Err(e) = observe::guarded(|| rspack_sources::SourceMap::from_slice(&b).is_ok()) {
+          ctx.violation("parser_panic", String::new(), None, || case.clone(), 0, e);
+        }
+      }
+    }
     "C01" | "C02" | "C03" | "C04" | "C06" | "C07" | "C11" => {
       let t: term::Term = serde_json::from_value(case.clone()).expect("case is a term");
       match prop {
